@@ -1194,20 +1194,21 @@ pub fn c05(tier: Tier) -> Vec<Space> {
         split3("C05", if tier == Tier::Quick { 34 } else { 80 }),
         split_compositions("C05"),
         split_opaque("C05"),
+        hist_space("C05", 4),
         chain("C05"),
         groups("C05"),
         id_pairs("C05"),
         soak("C05"),
     ];
     if tier == Tier::Thorough {
-        v.push(hist_space("C05", 5)); // directly continuing fragments must be accepted
+        v.push(hist_space("C05", 6)); // directly continuing fragments must be accepted
     }
     v
 }
 
 pub fn c06(tier: Tier) -> Vec<Space> {
     vec![
-        hist_space("C06", if tier == Tier::Quick { 4 } else { 6 }),
+        hist_space("C06", if tier == Tier::Quick { 5 } else { 6 }),
         chain("C06"),
         groups("C06"),
         id_pairs("C06"),
@@ -1219,7 +1220,7 @@ pub fn c17(tier: Tier) -> Vec<Space> {
     // soak first: its long bursts need the behavioural-confirmation budget most
     vec![
         soak("C17"),
-        hist_space("C17", if tier == Tier::Quick { 4 } else { 5 }),
+        hist_space("C17", if tier == Tier::Quick { 5 } else { 6 }),
         two_parsers("C17"),
         chain("C17"),
         groups("C17"),
